@@ -115,6 +115,92 @@ static void do_crc(char *arg) {
     free(b);
 }
 
+/* ---- module text form:  f=<flags>;e=<entry>;s=<hex,..>;c=<hex>;fn=<a.b.c.d.e.f,..>;d=<o.l,..>;i=<m.f.pc.rt.hex|N,..> ---- */
+static void print_module(const NvmModule *m) {
+    printf("f=%u;e=%u;s=", m->header.flags, m->header.entry_point);
+    for (uint32_t i = 0; i < m->string_count; i++) { if (i) printf(","); puthex((const uint8_t *)m->strings[i], m->string_lengths[i]); }
+    printf(";c="); puthex(m->code, m->code_size);
+    printf(";fn=");
+    for (uint32_t i = 0; i < m->function_count; i++) {
+        const NvmFunctionEntry *f = &m->functions[i];
+        printf("%s%u.%u.%u.%u.%u.%u", i ? "," : "", f->name_idx, f->arity, f->code_offset, f->code_length, f->local_count, f->upvalue_count);
+    }
+    printf(";d=");
+    for (uint32_t i = 0; i < m->debug_count; i++) printf("%s%u.%u", i ? "," : "", m->debug_entries[i].bytecode_offset, m->debug_entries[i].source_line);
+    printf(";i=");
+    for (uint32_t i = 0; i < m->import_count; i++) {
+        const NvmImportEntry *e = &m->imports[i];
+        printf("%s%u.%u.%u.%u.", i ? "," : "", e->module_name_idx, e->function_name_idx, e->param_count, e->return_type);
+        if (m->import_param_types[i]) puthex(m->import_param_types[i], e->param_count); else printf("N");
+    }
+}
+
+static NvmModule *parse_module(char *txt) {
+    NvmModule *m = nvm_module_new();
+    char *save = NULL;
+    for (char *fld = strtok_r(txt, ";", &save); fld; fld = strtok_r(NULL, ";", &save)) {
+        char *eq = strchr(fld, '=');
+        if (!eq) { nvm_module_free(m); return NULL; }
+        *eq = 0; char *val = eq + 1;
+        if (!strcmp(fld, "f")) m->header.flags = (uint32_t)strtoul(val, NULL, 10);
+        else if (!strcmp(fld, "e")) m->header.entry_point = (uint32_t)strtoul(val, NULL, 10);
+        else if (!strcmp(fld, "c")) {
+            size_t n; uint8_t *b = unhex(*val ? val : "-", &n);
+            if (!b) { nvm_module_free(m); return NULL; }
+            if (n) nvm_append_code(m, b, (uint32_t)n);
+            free(b);
+        } else {
+            char *s2 = NULL;
+            for (char *it = strtok_r(val, ",", &s2); it; it = strtok_r(NULL, ",", &s2)) {
+                if (!strcmp(fld, "s")) {
+                    size_t n; uint8_t *b = unhex(it, &n);
+                    if (!b) { nvm_module_free(m); return NULL; }
+                    nvm_add_string(m, (const char *)b, (uint32_t)n);
+                    free(b);
+                } else if (!strcmp(fld, "fn")) {
+                    unsigned a[6];
+                    if (sscanf(it, "%u.%u.%u.%u.%u.%u", &a[0], &a[1], &a[2], &a[3], &a[4], &a[5]) != 6) { nvm_module_free(m); return NULL; }
+                    NvmFunctionEntry f = { a[0], (uint16_t)a[1], a[2], a[3], (uint16_t)a[4], (uint16_t)a[5] };
+                    nvm_add_function(m, &f);
+                } else if (!strcmp(fld, "d")) {
+                    unsigned a, b;
+                    if (sscanf(it, "%u.%u", &a, &b) != 2) { nvm_module_free(m); return NULL; }
+                    nvm_add_debug_entry(m, a, b);
+                } else if (!strcmp(fld, "i")) {
+                    unsigned a[4]; char pt[2 * 65536 + 4];
+                    if (sscanf(it, "%u.%u.%u.%u.%131075s", &a[0], &a[1], &a[2], &a[3], pt) != 5) { nvm_module_free(m); return NULL; }
+                    if (!strcmp(pt, "N")) nvm_add_import(m, a[0], a[1], (uint16_t)a[2], (uint8_t)a[3], NULL);
+                    else {
+                        size_t n; uint8_t *b = unhex(pt, &n);
+                        if (!b || n != a[2]) { free(b); nvm_module_free(m); return NULL; }
+                        nvm_add_import(m, a[0], a[1], (uint16_t)a[2], (uint8_t)a[3], b);
+                        free(b);
+                    }
+                }
+            }
+        }
+    }
+    return m;
+}
+
+static void do_load(char *arg) {
+    size_t n; uint8_t *b = unhex(arg, &n);
+    if (!b) { puts("bad-op"); return; }
+    NvmModule *m = nvm_deserialize(b, (uint32_t)n);
+    if (!m) puts("err");
+    else { printf("ok "); print_module(m); puts(""); nvm_module_free(m); }
+    free(b);
+}
+
+static void do_ser(char *arg) {
+    NvmModule *m = parse_module(arg);
+    if (!m) { puts("bad-op"); return; }
+    uint32_t sz = 0;
+    uint8_t *b = nvm_serialize(m, &sz);
+    if (!b) puts("err"); else { printf("ok "); puthex(b, sz); puts(""); free(b); }
+    nvm_module_free(m);
+}
+
 int main(void) {
     char *line = NULL; size_t cap = 0; ssize_t len;
     while ((len = getline(&line, &cap, stdin)) > 0) {
@@ -127,6 +213,8 @@ int main(void) {
         else if (!strcmp(line, "isa.enc")) do_enc(arg);
         else if (!strcmp(line, "isa.info")) do_info(arg);
         else if (!strcmp(line, "crc")) do_crc(arg);
+        else if (!strcmp(line, "nvm.load")) do_load(arg);
+        else if (!strcmp(line, "nvm.ser")) do_ser(arg);
         else puts("bad-op");
     }
     free(line);
